@@ -116,6 +116,8 @@ def gen_op(rng, m, slot=0, p_invalid=0.0, weights=None, allow_names=True):
             name = None
             if allow_names and rng.chance(0.5):
                 name = rng.choice(["r", "con", "c", "c1", "x", "R", "c2_0"]) + str(rng.below(40))
+                if rng.chance(0.06):
+                    name = rng.choice(["obj", "obj", "OBJ", "rhs", "p%dq", "a%%b"])      # the names the library itself generates / printf-active ones
             if inv and m.rows and allow_names and rng.chance(0.5):
                 name = rng.choice(m.rows)[0]
                 valid = False
